@@ -388,8 +388,9 @@ for _pid, _what, _thms in [
     ("C19", "the bound on alternate links", "alternate_hops_is_models"),
     ("C12", "the bound on alternate links and the depth of every tree the merklizer creates", "alternate_hops_is_models, tree_depth_is_models"),
     ("C09", "the size limit of a status response, the comparisons of the HTTP status code, and how the registry's methods key their map (by their own parameter, as given; no mention of the default registry)", "status_limit_is_models, status_code_conds_are_models, registry_key_use_is_models"),
-    ("C07", "the type literal and first-match rule of getIden3StateInfo2023FromDIDDocument and how the registry's methods key their map", "state_info_type_is_models, registry_key_use_is_models"),
-    ("C08", "the type literal and first-match rule of getIden3StateInfo2023FromDIDDocument", "state_info_type_is_models"),
+    ("C07", "the type literal and first-match rule of getIden3StateInfo2023FromDIDDocument and how the registry's methods key their map", "state_info_type_is_models, registry_key_use_is_models, proof_switch_is_models"),
+    ("C08", "the type literal and first-match rule of getIden3StateInfo2023FromDIDDocument, and the proof types VerifyProof's switch verifies (constants, their strings, the default arm)", "state_info_type_is_models, proof_switch_is_models"),
+    ("C06", "the proof types VerifyProof's switch verifies (constants in order, the strings they stand for, what the default arm returns)", "proof_switch_is_models; Props.C06.kindOfName_spec relates the table to the dispatcher model"),
     ("C02", "the depth of every tree the merklizer creates", "tree_depth_is_models"),
     ("C13", "the depth of every tree the merklizer creates and the safe-mode value of every Merklizer literal", "tree_depth_is_models, safe_default_is_models"),
     ("C15", "the safe-mode value every Merklizer literal starts with", "safe_default_is_models"),
